@@ -175,6 +175,16 @@ def oracle(tier, rng, deep=False):
             v = sl.mtl_violation(X, Y, m.coef_.T, m.intercept_, am, fi)
             if v > 1e-5:
                 failures.append(dict(site="not-stationary-for-documented-objective:MultiTaskLasso", input=dict(inp0, Y=Y.tolist(), alpha=am), observed=dict(W=m.coef_.tolist()), expected=dict(violation=v)))
+            # the documented meaning of the arguments also holds on a refit (warm_start=True, targets not centred, alpha changed)
+            Ys = Y + 3.0
+            mw = MultiTaskLasso(alpha=am, fit_intercept=fi, warm_start=True, tol=tol, max_iter=300).fit(X, Ys)
+            am2 = am * 0.5
+            mw.alpha = am2
+            mw.fit(X, Ys)
+            ev += 1
+            v = sl.mtl_violation(X, Ys, mw.coef_.T, mw.intercept_, am2, fi)
+            if v > 1e-5:
+                failures.append(dict(site="not-stationary-for-documented-objective:MultiTaskLasso:refit", input=dict(inp0, Y=Ys.tolist(), alpha=am2), observed=dict(W=mw.coef_.tolist()), expected=dict(violation=v)))
             # classification
             ys = np.sign(y - np.median(y)); ys[ys == 0] = 1
             al = float(np.max(np.abs(X.T @ ys))) / (2 * n) * 0.2
